@@ -841,6 +841,8 @@ Section Limits.
     destruct (s_deleted s); [|exact H1]. eapply Lim_mono; [exact H1|reflexivity|reflexivity| |reflexivity].
     cbn [sv_sessions set_sessions]. apply size_delete_le.
   Qed.
+  Lemma Lim_set_lastProcessed k sv : Lim sv -> Lim (set_lastProcessed k sv).
+  Proof. intros H. apply (Lim_mono sv _ H); reflexivity. Qed.
   Lemma Lim_update_last_cmid k ts d c sv sv1 : update_last_cmid k ts d c sv = Some sv1 -> Lim sv -> Lim sv1.
   Proof.
     unfold update_last_cmid. destruct (sv_sessions sv !! k) as [s|] eqn:E; [|discriminate]. intros [= <-] H.
@@ -860,13 +862,13 @@ Section Limits.
     - destruct (sv_sessions sv !! (session, 0%N)); [|cbn; intros [= <-]; exact H]. unfold run_handler.
       pose proof (ht_elim _ _ _ (lim_process_message e (session, 0%N) "" (parse_message ("QUIT :" ++ q))) sv (RCtx id []) H) as Hp.
       destruct (process_message _ _ _ _ sv _) as [[[[] sv1] r1]|?|?]; cbn; try discriminate.
-      intros [= <-]. apply Lim_maybe_delete_session. exact Hp.
+      intros [= <-]. apply Lim_maybe_delete_session, Lim_set_lastProcessed. exact Hp.
     - destruct (is_retry _ _ sv); [cbn; intros [= <-]; exact H|].
       destruct (update_last_cmid _ _ _ _ sv) as [sv1|] eqn:Hu; [|cbn; intros [= <-]; exact H].
       pose proof (Lim_update_last_cmid _ _ _ _ _ _ Hu H) as H1. unfold run_handler.
       pose proof (ht_elim _ _ _ (lim_process_message e (session, 0%N) ra (parse_message data)) sv1 (RCtx id []) H1) as Hp.
       destruct (process_message _ _ _ _ sv1 _) as [[[[] sv2] r2]|?|?]; cbn; try discriminate.
-      intros [= <-]. apply Lim_maybe_delete_session. exact Hp.
+      intros [= <-]. apply Lim_maybe_delete_session, Lim_set_lastProcessed. exact Hp.
     - destruct (update_last_cmid _ _ _ _ sv) as [sv1|] eqn:Hu; cbn; intros [= <-]; [|exact H].
       apply (Lim_update_last_cmid _ _ _ _ _ _ Hu H).
     - destruct parsed as [g|]; [exfalso; eapply Hnc; reflexivity|]. cbn. intros [= <-]. exact H.
